@@ -140,6 +140,11 @@ static void e2e_case(Out &o, Gen &G, int method, int q, int n_target, int style,
   bool mesh = method >= M_MESH_SEQ;
   int nc = mesh ? 3 : (int)G.r.range(1, 4);
   Geo g = make_geo(G, n_target, mesh, nc, style);
+  // the FIRST value (or the second, or the last) alone carries the extreme of component 0: loops that scan values for a range or a bit
+  // length must look at every element, including the ends
+  if (g.n() >= 3 && G.r.chance(20)) { float lo = g.flat[0], hi = g.flat[0]; for (int i = 0; i < g.n(); i++) { lo = std::min(lo, g.flat[(size_t)i * nc]); hi = std::max(hi, g.flat[(size_t)i * nc]); }
+    if (std::isfinite(lo) && std::isfinite(hi) && hi > lo) { int who = (int)G.r.below(3); int idx = who == 0 ? 0 : (who == 1 ? 1 : g.n() - 1); bool top = G.r.chance(70);
+      for (int i = 0; i < g.n(); i++) { float &v = g.flat[(size_t)i * nc]; v = top ? lo + (v - lo) * 0.4f : hi - (hi - v) * 0.4f; } g.flat[(size_t)idx * nc] = top ? hi : lo; } }
   int speed = (int)G.r.range(0, 10);
   std::vector<float> origin(nc); float range = 0;
   if (explicit_range) {
